@@ -213,22 +213,28 @@ impl<F> FnGraph<F> {
         }
 
         stream::poll_fn(move |context| {
-            match fn_done_rx.poll_recv(context) {
-                Poll::Pending => {}
-                Poll::Ready(None) => {}
-                Poll::Ready(Some(fn_id)) => graph_structure
-                    .children(fn_id)
-                    .iter(graph_structure)
-                    .for_each(|(_edge_id, child_fn_id)| {
-                        predecessor_counts[child_fn_id.index()] -= 1;
-                        if predecessor_counts[child_fn_id.index()] == 0 {
-                            if let Some(fn_ready_tx) = fn_ready_tx.as_ref() {
-                                // If we fail to queue a function, the scheduler has been
-                                // interrupted.
-                                let _ = fn_ready_tx.try_send(child_fn_id);
+            // Process every `fn_done` notification that is already queued: stopping after the
+            // first one would leave later notifications unprocessed with no waker registered
+            // for them (`poll_recv` only registers the waker when it returns `Pending`), so a
+            // function whose predecessors have all been dropped could be left unqueued.
+            loop {
+                match fn_done_rx.poll_recv(context) {
+                    Poll::Pending => break,
+                    Poll::Ready(None) => break,
+                    Poll::Ready(Some(fn_id)) => graph_structure
+                        .children(fn_id)
+                        .iter(graph_structure)
+                        .for_each(|(_edge_id, child_fn_id)| {
+                            predecessor_counts[child_fn_id.index()] -= 1;
+                            if predecessor_counts[child_fn_id.index()] == 0 {
+                                if let Some(fn_ready_tx) = fn_ready_tx.as_ref() {
+                                    // If we fail to queue a function, the scheduler has been
+                                    // interrupted.
+                                    let _ = fn_ready_tx.try_send(child_fn_id);
+                                }
                             }
-                        }
-                    }),
+                        }),
+                }
             }
 
             let poll = if let Some(fn_done_tx) = fn_done_tx.as_ref() {
